@@ -25,8 +25,6 @@ const c14NestText = "cannot nest transactions"
 
 func c14Extra(e error) (string, error, bool) {
 	switch {
-	case e == context.Canceled:
-		return "ctx", nil, true
 	case e == breaker.ErrServiceUnavailable:
 		return "breaker", nil, true
 	case e.Error() == c14NestText && errors.Unwrap(e) == nil:
@@ -46,7 +44,7 @@ func c14Gen(r *verifh.Rng) []verifh.Section {
 		var ops []string
 		n := r.Range(4, 14)
 		for j := 0; j < n; j++ {
-			ops = append(ops, verifc14.GenOp(r, []string{"plain", "ctx", "ctx", "ctxdone"}, classes, verifh.Scale(6, 12), false))
+			ops = append(ops, verifc14.GenOp(r, []string{"plain", "ctx", "ctx", "ctx", "ctxdone", "ctxdead"}, classes, verifh.Scale(6, 12), false))
 		}
 		secs = append(secs, verifh.Section{Cfg: "via=cached accept=" + r.PickS("none", "user"), Ops: ops})
 	}
@@ -63,18 +61,76 @@ func TestVerifC14Cached(t *testing.T) {
 		}
 		drv := verifc14.NewDrv()
 		db := sql.OpenDB(drv)
-		call := func(api string, _ bool, body func(verifc14.Sess) error) (error, string) {
+		call := func(api, kind string, _ bool, body func(verifc14.Sess) error, mark *string) error {
+			*mark = "?"
 			// a fresh SqlConn (fresh breaker) per operation: the breaker never has a history to trip on
 			cc := NewConnWithCache(sqlx.NewSqlConnFromDB(db, opts...), nil)
-			sess := func(s sqlx.Session) verifc14.Sess {
+			var ctx context.Context
+			var end func(bool)
+			switch {
+			case api == "plain":
+			case kind == "d" || api == "ctxdead":
+				c := verifc14.NewCtx()
+				ctx, end = c, func(deadline bool) {
+					if deadline {
+						c.Finish(context.DeadlineExceeded)
+					} else {
+						c.Finish(context.Canceled)
+					}
+				}
+			default:
+				c, cancel := context.WithCancel(context.Background())
+				defer cancel()
+				ctx, end = c, func(bool) { cancel() }
+			}
+			switch api {
+			case "ctxdone":
+				end(false)
+			case "ctxdead":
+				end(true)
+			}
+			nested := func(err error, ran bool) error {
+				if ran {
+					return errors.New("c14: nested body ran")
+				}
+				return err
+			}
+			sess := func(c context.Context, s sqlx.Session) verifc14.Sess {
 				return verifc14.Sess{
 					Exec: func(q string) error {
+						if c != nil {
+							_, err := s.ExecCtx(c, q)
+							return err
+						}
 						_, err := s.Exec(q)
+						return err
+					},
+					PExec: func(q string) error {
+						if c != nil {
+							st, err := s.PrepareCtx(c, q)
+							if err != nil {
+								return err
+							}
+							defer st.Close()
+							_, err = st.ExecCtx(c)
+							return err
+						}
+						st, err := s.Prepare(q)
+						if err != nil {
+							return err
+						}
+						defer st.Close()
+						_, err = st.Exec()
 						return err
 					},
 					Query: func(q string) error {
 						var out []string
-						err := s.QueryRows(&out, q)
+						var err error
+						if c != nil {
+							err = s.QueryRowsCtx(c, &out, q)
+						} else {
+							err = s.QueryRows(&out, q)
+						}
 						if err == nil && (len(out) != 1 || out[0] != "c14") {
 							return fmt.Errorf("c14: unexpected rows %v", out)
 						}
@@ -86,29 +142,27 @@ func TestVerifC14Cached(t *testing.T) {
 							ran = true
 							return nil
 						})
-						if ran {
-							return errors.New("c14: nested body ran")
-						}
-						return err
+						return nested(err, ran)
 					},
+					NestCtx: func() error {
+						ran := false
+						cx := c
+						if cx == nil {
+							cx = context.Background()
+						}
+						err := cc.WithSession(s).TransactCtx(cx, func(context.Context, sqlx.Session) error {
+							ran = true
+							return nil
+						})
+						return nested(err, ran)
+					},
+					End: end,
 				}
 			}
-			var err error
-			switch api {
-			case "plain":
-				err = cc.Transact(func(s sqlx.Session) error { return body(sess(s)) })
-			case "ctx":
-				ctx, cancel := context.WithCancel(context.Background())
-				err = cc.TransactCtx(ctx, func(_ context.Context, s sqlx.Session) error { return body(sess(s)) })
-				cancel()
-			case "ctxdone":
-				ctx, cancel := context.WithCancel(context.Background())
-				cancel()
-				err = cc.TransactCtx(ctx, func(_ context.Context, s sqlx.Session) error { return body(sess(s)) })
-			default:
-				panic("c14: bad api " + api)
+			if api == "plain" {
+				return cc.Transact(func(s sqlx.Session) error { return body(sess(nil, s)) })
 			}
-			return err, "?"
+			return cc.TransactCtx(ctx, func(c context.Context, s sqlx.Session) error { return body(sess(c, s)) })
 		}
 		h := verifc14.Hooks{Call: call, Extra: c14Extra, Plan: drv.P, Texts: map[string]string{c14NestText: "nest"}}
 		return func(op []string) string { return verifc14.RunOp(op, h) }, func() { db.Close() }
